@@ -1,7 +1,7 @@
 """Regenerate coq/gen/*.v from /repo's current sources.  Files are rewritten only when their
 content changes so that make stays incremental."""
 import os, sys, json
-from . import dispatch, tables, inventory
+from . import dispatch, tables, inventory, leaf
 
 VERIF = os.path.dirname(os.path.dirname(os.path.abspath(__file__)))
 GEN = os.path.join(VERIF, "coq", "gen")
@@ -39,6 +39,11 @@ def regenerate(cfg, sizes):
     report["utf8d_entries"] = len(t["vals"])
     # config
     write_if_changed(os.path.join(GEN, "Gen_config.v"), tables.emit_config(cfg["conf"], sizes))
+    # leaf functions
+    fns, notes = leaf.translate_all(cfg)
+    report["unsupported"] += ["translator_unsupported:" + n for n in notes]
+    write_if_changed(os.path.join(GEN, "Gen_leaf.v"), leaf.emit(fns))
+    report["leaf_functions"] = sum(1 for _, t in fns if t is not None)
     # inventories
     inv, notes = inventory.scan(cfg)
     report["unsupported"] += ["translator_unsupported:" + n for n in notes]
